@@ -6,10 +6,12 @@ GEN  : Gen_Unmarshal — Ion values of every type (every typed null, symbols wit
        in text and binary; streams of 0..4 values.
 EXEC : the full matrix: every value x every Go target type (all integer widths, floats, string, []byte,
        arrays, slices, maps, pointers, interface{}, Timestamp, *Decimal, time.Time, big.Int, SymbolToken,
-       annotation wrappers, structs) through Unmarshal under recover; Decoder.Decode until ErrNoInput + 2 calls.
+       annotation wrappers, structs) through Unmarshal under recover; Decoder.Decode until ErrNoInput + 2 calls;
+       every proper prefix of the container-valued documents into struct, map and interface targets.
 JUDGE: Judge_Unmarshal / Judge_DecStream (TLC): never a panic; an error is always acceptable; a stored value
        must represent the Ion value (spec/Marshal.tla Faithful: exact integers and float bits, text, bytes,
-       element-wise sequences, map entries) - never wrapped, truncated or zeroed.
+       element-wise sequences, map entries) - never wrapped, truncated or zeroed; for a prefix: if a Reader that
+       reads the first value completely meets an error, Unmarshal returns an error too.
 """
 import json
 import os
@@ -50,6 +52,38 @@ def run(tier):
         core.run_harness("unmarshal", os.path.join(ds, "in.ndjson"), os.path.join(ds, "obs.ndjson"))
         core.tlc_eval(ds, "Judge_DecStream", dict(ObsFile="obs.ndjson", CaseFile="cases.ndjson", VerdictFile="verdict.ndjson"))
         svs = core.read_ndjson(os.path.join(ds, "verdict.ndjson"))
+        # ---- documents cut short inside their first value: when a Reader that reads the first value completely meets an
+        # error, Unmarshal of the same bytes must return one too (it must not hand back a partly filled target as success)
+        TR_TARGETS = ["scalars", "tags", "inner", "case", "mapiface", "iface", "ifaces", "map", "ints"]
+        conts = [c for c in docs if c["v"]["t"] in ("struct", "list", "sexp") and not c["v"]["null"] and len(c["bytes"]) <= 120]
+        step = 1 if tier != "quick" else 2
+        trunc = []
+        for c in conts[::step]:
+            for k in range(1, len(c["bytes"])):
+                trunc.append(dict(bytes=c["bytes"][:k], types=TR_TARGETS, trunc=True, fmt=c["fmt"]))
+        tshards = core.shard(trunc, 8)
+
+        def job_trunc(k):
+            dk = wd.sub("tr%d" % k)
+            core.write_ndjson(os.path.join(dk, "in.ndjson"), tshards[k])
+            core.run_harness("unmarshal", os.path.join(dk, "in.ndjson"), os.path.join(dk, "obs.ndjson"))
+            return list(zip(tshards[k], core.read_ndjson(os.path.join(dk, "obs.ndjson"))))
+        tres = [x for xs in core.parallel([lambda k=k: job_trunc(k) for k in range(8) if tshards[k]]) for x in xs]
+        seen_tr = set()
+        for c, o in tres:
+            if not o["firsterr"] or o["firsterr"].startswith("harness"):
+                continue
+            for r in o["res"]:
+                if r["panic"] or r["err"] == "":
+                    key = (c["fmt"], r["type"], bool(r["panic"]))
+                    if key in seen_tr:
+                        continue
+                    seen_tr.add(key)
+                    sig = dict(part="truncated", fmt=c["fmt"], target=r["type"], why="panic" if r["panic"] else
+                               "a Reader meets an error inside the first value, Unmarshal of the same bytes returns nil",
+                               doc=(bytes(c["bytes"]).decode("utf8", "replace") if c["fmt"] == "text" else bytes(c["bytes"]).hex())[:120],
+                               reader_error=o["firsterr"][:120])
+                    verdicts.fail(sig, dict(bytes=c["bytes"], fmt=c["fmt"], target=r["type"], trunc=True))
         ncells = 0
         for c, v, o in res:
             ncells += len(o["res"])
@@ -74,7 +108,7 @@ def run(tier):
             evaluations=ncells + len(sdocs), distinct_nontrivial=ncells,
             rule="matrix = %d Ion documents (%d values x text/binary) x %d Go target types, every cell executed and judged; + %d "
                  "streams of 0..4 values for the Decoder automaton" % (len(docs), len(docs) // 2, len(TARGETS), len(sdocs)),
-            exhaustive=True, targets=TARGETS, known_findings=verdicts.known, gen_wall_s=round(rgen["wall"], 1),
+            exhaustive=True, targets=TARGETS, truncated_documents=len(trunc), known_findings=verdicts.known, gen_wall_s=round(rgen["wall"], 1),
             samples=[dict(fmt=c["fmt"], value=(bytes(c["bytes"]).decode("utf8", "replace") if c["fmt"] == "text" else bytes(c["bytes"]).hex()))
                      for c in docs[::max(1, len(docs) // 6)][:6]]),
             time.time() - t0, len(verdicts.violations),
@@ -89,11 +123,11 @@ def replay(path):
     c = rp["case"]
     with core.Workdir("c17r") as wd:
         d = wd.sub("r")
-        core.write_ndjson(os.path.join(d, "in.ndjson"), [dict(bytes=c["bytes"], types=[] if c.get("stream") else [c["target"]])])
+        core.write_ndjson(os.path.join(d, "in.ndjson"), [dict(bytes=c["bytes"], types=[] if c.get("stream") else [c["target"]], trunc=bool(c.get("trunc")))])
         core.run_harness("unmarshal", os.path.join(d, "in.ndjson"), os.path.join(d, "obs.ndjson"))
         o = core.read_ndjson(os.path.join(d, "obs.ndjson"))[0]
     print("replay observation:", json.dumps(o)[:400])
-    if any(r["panic"] for r in o["res"]) or o["decpanic"]:
+    if any(r["panic"] for r in o["res"]) or o["decpanic"] or (c.get("trunc") and o["firsterr"] and any(r["err"] == "" for r in o["res"])):
         print("VIOLATION property=%s replay=%s" % (PROP, path))
         return 1
     print("replay: no panic; re-run the check for the faithfulness verdict")
